@@ -17,7 +17,9 @@ ASSUME = BASE_ASSUME + ["io.Writer.Write(p) is an opaque environment call: recor
 def writer_users(ctx):
     users = field_users(ctx.prog, "serial.Serial", "writer")
     want = {"serial.New", "(*serial.Serial).WriteSB"}
-    return users == want, "functions touching Serial.writer: %s" % sorted(users)
+    from props.common import not_confined
+    nc = not_confined(ctx.prog, users, want)
+    return not nc, "functions touching Serial.writer: %s; outside New/WriteSB and their private helpers: %s" % (sorted(users), nc)
 
 
 def tasks(ctx):
